@@ -9,12 +9,14 @@ from mc.engine.report import Violation
 from mc.engine.seams import Canon, public_snapshot, new_model
 
 import atexit
+import copy
 import logging
 import os
 import shutil
 import tempfile
 
 import ECAgent.Core as Core
+import ECAgent.Decode as Decode
 from ECAgent.Collectors import AgentCollector, FileCollector
 
 POS = {'first': 2, 'mid': 0, 'last': -2, 'none': None}
@@ -132,8 +134,15 @@ class Harness:
                 pass
 
         style = self.style
+        if style == 'falsy':
+            # system objects that are falsy (container-like: their length is what they hold - nothing)
+            Rec.__len__ = lambda self_: 0
 
         class Completer(Core.System):
+            if style == 'falsy':
+                def __len__(self):
+                    return 0
+
             def execute(self):
                 log.append(self.id)
                 if self.model.systems.timestep == tc:
@@ -204,25 +213,7 @@ class Harness:
 
     def ops(self, w):
         ops = [['complete']]
-        if self.style == 'truthy':
-            # a model class with its own truth value (so that `model or default` works as an existence test): whether it
-            # is running is what is_running() says
-            class Truthy(Core.Model):
-                def __bool__(self):
-                    return True
-            w.model = m = new_model(seed=1, cls=Truthy)
-        elif self.style == 'broken_logger':
-            # the caller's logger cannot emit (its handler's sink was closed): a refused request may fail with the
-            # handler's error or be refused as documented - the model is untouched either way
-            class Closed(logging.Handler):
-                def emit(self_, record):
-                    raise OSError('log sink closed')
-            lg = logging.getLogger('c06-broken')
-            lg.setLevel(logging.DEBUG)
-            lg.propagate = False
-            lg.handlers[:] = [Closed()]
-            w.model = m = Core.Model(seed=1, logger=lg)
-        elif self.style == 'gated':
+        if self.style == 'gated':
             ops.append(['gate', 0 if w.gate else 1])
         if not w.running or w.t < self.horizon:      # while running the clock is bounded by the horizon
             ops += [['execute', 1], ['execute', 2], ['execute', 3], ['xs'], ['xs_throw'], ['xs_old']]
@@ -433,7 +424,7 @@ def configs(tier):
     for pos in POS:
         yield (pos, 1, 4 if tier == 'quick' else 6, False, True)       # caller-supplied quiet logger
     for style in ('self_removing', 'raises', 'finite_ends', 'gated', 'spawning', 'unimplemented', 'truthy', 'broken_logger',
-                  'mixin'):
+                  'mixin', 'falsy'):
         for pos in ('first', 'mid', 'last'):
             for tc in ((1,) if tier == 'quick' else TCS):
                 yield (pos, tc, 4 if tier == 'quick' else 6, False, False, style)
@@ -536,6 +527,108 @@ def after_completion_case(case):
     return case['requests']
 
 
+class _DictDecoder(Decode.Decoder):
+    """A decoder fed with a description it holds (no file)."""
+
+    def __init__(self, data):
+        self.data = data
+
+    def open_file(self, file_name):
+        return copy.deepcopy(self.data)
+
+
+_DEC = {'log': [], 'model': None, 'at': None}
+
+
+def _dec_maybe_complete(point):
+    if _DEC['at'] == point and _DEC['model'] is not None:
+        _DEC['model'].complete()
+
+
+class DecModel(Core.Model, Decode.IDecodable):
+    @staticmethod
+    def decode(params):
+        m = DecModel(seed=1)
+        _DEC['model'] = m
+        _dec_maybe_complete('model_decode')
+        return m
+
+
+class DecSys(Core.System, Decode.IDecodable):
+    def execute(self):
+        _DEC['log'].append((self.id, self.model.systems.timestep))
+
+    @staticmethod
+    def decode(params):
+        s = DecSys(params['id'], params['model'], priority=params.get('priority', 0))
+        _dec_maybe_complete('system_decode:' + params['id'])
+        return s
+
+
+class DecAgent(Core.Agent, Decode.IDecodable):
+    @staticmethod
+    def decode(params):
+        a = DecAgent(f'a{params["agent_index"]}', params['model'])
+        _dec_maybe_complete(f'agent_decode:{params["agent_index"]}')
+        return a
+
+
+def dec_hook(params):
+    _dec_maybe_complete(params['point'])
+
+
+DEC_POINTS = ['model_decode', 'pre_system:s0', 'system_decode:s0', 'post_system:s0', 'pre_system:s1', 'system_decode:s1',
+              'post_system:s1', 'pre_agent', 'agent_decode:0', 'agent_decode:1', 'post_agent', 'post_model']
+
+
+def decoded_case(case):
+    """The model is marked complete WHILE it is being decoded from a description (by the model's / a system's / an
+    agent's decode method or by one of the init hooks): the decoder hands back a completed model, on which nothing runs."""
+    from mc.engine.seams import reset_library
+    reset_library()
+    me = __name__
+    _DEC.update(log=[], model=None, at=case['at'])
+
+    def hook(point):
+        return {'func': 'dec_hook', 'module': me, 'params': {'point': point}}
+    data = {'model': {'name': 'DecModel', 'module': me, 'params': {}},
+            'systems': [{'name': 'DecSys', 'module': me, 'params': {'id': sid, 'priority': pr},
+                         'pre_system_init': hook(f'pre_system:{sid}'), 'post_system_init': hook(f'post_system:{sid}')}
+                        for sid, pr in (('s0', 1), ('s1', 0))],
+            'agents': [{'name': 'DecAgent', 'module': me, 'number': 2, 'params': {}, 'pre_agent_init': hook('pre_agent'),
+                        'post_agent_init': hook('post_agent')}],
+            'post_model_decode': hook('post_model')}
+    m = _DictDecoder(data).decode('unused')
+    if m is not _DEC['model']:
+        raise Violation('the decoder handed back another model than the one it built')
+    if m.is_running():
+        raise Violation(f'the model was marked complete while it was decoded (at {case["at"]}): the decoder hands back a model '
+                        f'that reports itself as running', expected=False, observed=True)
+    t0 = m.timestep
+    for req in ('execute()', 'execute(3)', 'execute_systems()', 'strict'):
+        try:
+            if req == 'execute()':
+                m.execute()
+            elif req == 'execute(3)':
+                m.execute(3)
+            elif req == 'execute_systems()':
+                m.systems.execute_systems()
+            else:
+                m.systems.execute_systems(throw_error=True)
+        except Core.ModelCompleteError:
+            if req != 'strict':
+                raise Violation(f'{req} on the decoded, completed model raised ModelCompleteError')
+        else:
+            if req == 'strict':
+                raise Violation('execute_systems(throw_error=True) on the decoded, completed model did not raise',
+                                expected='ModelCompleteError', observed='no exception')
+        if _DEC['log'] or m.timestep != t0 or m.systems.timestep != t0 or m.is_running():
+            raise Violation(f'model completed while decoded (at {case["at"]}), then {req}: something ran, the clock moved or '
+                            f'the model runs again', expected=[[], t0, False],
+                            observed=[list(_DEC['log']), m.timestep, m.is_running()])
+    return 4
+
+
 def reentrant_case(case):
     """A system advances its OWN model from inside its turn (guarded against recursion) and the model is completed -
     after the nested step has returned, or by a system inside the nested step.  Whatever the nesting does to the order
@@ -616,6 +709,7 @@ RELOAD_CHILD = r"""
 import importlib, sys
 sys.path.insert(0, sys.argv[1])
 import ECAgent.Core as Core
+import ECAgent.Decode as Decode
 m = Core.Model(seed=1)
 log = []
 class S(Core.System):
@@ -678,10 +772,11 @@ def run(ctx):
     extra += [{'leg': 'after_completion', 'systems': ['over', 'each', 'every9'], 'warm': w_, 'requests': 70, 'big': 8, 'inside': ins}
               for w_ in (62, 63, 64, 127, 128, 255, 256) for ins in (False, True)]
     extra += [{'leg': 'reentrant', 'where': wh, 'pos': pos} for wh in ('after', 'inside') for pos in ('first', 'mid', 'last')]
+    extra += [{'leg': 'decoded', 'at': at} for at in DEC_POINTS]
     for case in extra:
         ctx.traces += 1
         try:
-            fn = after_completion_case if case['leg'] == 'after_completion' else reentrant_case
+            fn = {'after_completion': after_completion_case, 'reentrant': reentrant_case, 'decoded': decoded_case}[case['leg']]
             ctx.transitions += hbfs._guard(fn, case)
             ctx.outcome((case['leg'], repr(sorted(case.items()))))
         except Violation as v:
@@ -712,8 +807,9 @@ def replay(case):
     if case['leg'] == 'reload':
         hbfs._guard(reload_case, case)
         return
-    if case['leg'] in ('after_completion', 'reentrant'):
-        hbfs._guard(after_completion_case if case['leg'] == 'after_completion' else reentrant_case, case)
+    if case['leg'] in ('after_completion', 'reentrant', 'decoded'):
+        hbfs._guard({'after_completion': after_completion_case, 'reentrant': reentrant_case,
+                     'decoded': decoded_case}[case['leg']], case)
         return
     c = case['config']
     hbfs.replay_case(Harness(c['pos'], c['tc'], c['horizon'], c['second'], c.get('quiet', False),
